@@ -551,6 +551,20 @@ def parse_tag(text: str, parser: Optional[Parser]) -> Tuple[str, List[TagAttr]]:
                     raise TemplateSyntaxError("Spread syntax '...' is missing a value")
         return spread_token
 
+    # Whether a list / dict literal is next, optionally prefixed with the spread syntax,
+    # e.g. `[`, `...[`, `*[`, `**[`. Same as with variables (`* var`), whitespace is allowed
+    # between the Python-like spread (`*`, `**`) and the literal, e.g. `* [1, 2]`.
+    def is_next_struct(bracket: str) -> bool:
+        if is_next_token([bracket, "..." + bracket]):
+            return True
+        for spread in ("**", "*"):
+            if is_next_token([spread]):
+                offset = len(spread)
+                while not is_at_end(offset) and text[index + offset] in TAG_WHITESPACE:
+                    offset += 1
+                return not is_at_end(offset) and text[index + offset] == bracket
+        return False
+
     # Parse attributes
     attrs: List[TagAttr] = []
     while not is_at_end():
@@ -591,7 +605,7 @@ def parse_tag(text: str, parser: Optional[Parser]) -> Tuple[str, List[TagAttr]]:
             curr_value = stack[-1]
 
             # Manage state with regards to lists and dictionaries
-            if is_next_token(["[", "...[", "*[", "**["]):
+            if is_next_struct("["):
                 spread_token = extract_spread_token(curr_value, None)
                 if spread_token is not None:
                     if curr_value.type == "simple" and key is not None:
@@ -613,7 +627,7 @@ def parse_tag(text: str, parser: Optional[Parser]) -> Tuple[str, List[TagAttr]]:
                     stack.pop()
                 continue
 
-            elif is_next_token(["{", "...{", "*{", "**{"]):
+            elif is_next_struct("{"):
                 spread_token = extract_spread_token(curr_value, None)
                 if spread_token is not None:
                     if curr_value.type == "simple" and key is not None:
